@@ -183,4 +183,131 @@ MUTANTS = [
 		return aq, err
 	}
 	defer aref.Unlock()""")]),
+
+ # ---- C13
+ ("c13-inplace-walk-no-clunk", "C13", [("sfilesys.go", """		ref.Ent.Clunk(ctx) // TODO(frobnitzem): note - ignoring error here
+""", "")]),
+ ("c13-delrefaction-keeps-ent", "C13", [("sfilesys.go", """	ref.Ent = nil
+	return combine_errors(err, err2)""", """	return combine_errors(err, err2)""")]),
+ ("c13-walk-rollback-no-delete", "C13", [("sfilesys.go", """		if newref != nil {
+			sess.refs.Delete(newfid)
+			newref.Unlock()""", """		if newref != nil {
+			newref.Unlock()""")]),
+ ("c13-create-failure-leaks-ent", "C13", [("sfilesys.go", """			sess.refs.Delete(parent)
+			ref.link(ent)
+			delRefAction(ctx, ref, false)""", """			sess.refs.Delete(parent)""")]),
+ ("c13-attach-failure-no-delete", "C13", [("sfilesys.go", """	if err != nil {
+		sess.refs.Delete(fid)
+		return Qid{}, err
+	}
+	ref.link(ent)""", """	if err != nil {
+		return Qid{}, err
+	}
+	ref.link(ent)""")]),
+ ("c13-stop-stops-early", "C13", [("sfilesys.go", """			sess.delRef(ctx, fid, false)
+		}
+		return true""", """			sess.delRef(ctx, fid, false)
+		}
+		return false""")]),
+ ("c13-stop-no-release", "C13", [("sfilesys.go", """		if fid, ok := fid1.(Fid); ok { // unbind, lock, close and clunk
+			sess.delRef(ctx, fid, false)
+		}
+		return true""", """		if fid, ok := fid1.(Fid); ok { // unbind, lock, close and clunk
+			sess.refs.Delete(fid)
+			_ = ctx
+		}
+		return true""")]),
+ ("c13-walk-clone-clunks-source", "C13", [("sfilesys.go", """		ref.Unlock()
+		ref = newref
+		newref = nil""", """		ref.Ent.Clunk(ctx)
+		ref.Unlock()
+		ref = newref
+		newref = nil""")]),
+ ("c13-create-clunks-parent-too", "C13", [("sfilesys.go", """	//ref.Ent.Clunk(ctx)
+	ref.File = nil""", """	ref.Ent.Clunk(ctx)
+	ref.Ent.Clunk(ctx)
+	ref.File = nil""")]),
+ ("c13-clunk-unbinds-without-release", "C13", [("sfilesys.go", """	if ref.Ent == nil {
+		return nil
+	}
+
+	return delRefAction(ctx, ref, remove)""", """	if ref.Ent == nil || remove {
+		return nil
+	}
+
+	return delRefAction(ctx, ref, remove)""")]),
+
+ # ---- C08
+ ("c08-newref-no-nofid", "C08", [("sfilesys.go", """func (sess *session) newRef(fid Fid) (ref *SFid, err error) {
+	if fid == NOFID {
+		return nil, ErrUnknownfid
+	}
+""", """func (sess *session) newRef(fid Fid) (ref *SFid, err error) {
+""")]),
+ ("c08-newref-store", "C08", [("sfilesys.go", """	_, found := sess.refs.LoadOrStore(fid, ref)
+	if found {
+		//ref.Unlock() not needed
+		return nil, ErrDupfid
+	}
+""", """	sess.refs.Store(fid, ref)
+""")]),
+ ("c08-newref-ignores-found", "C08", [("sfilesys.go", """	if found {
+		//ref.Unlock() not needed
+		return nil, ErrDupfid
+	}
+""", """	_ = found
+""")]),
+ ("c08-walk-link-before-length-test", "C08", [("sfilesys.go", """	// "Only if it is equal, however, will newfid be affected"
+	if len(qids) != len(names) {
+		return qids, nil
+	}
+""", """	// "Only if it is equal, however, will newfid be affected"
+	if len(qids) < len(names) && newfid == fid {
+		return qids, nil
+	}
+""")]),
+ ("c08-delref-load-only", "C08", [("sfilesys.go", """	ref1, found := sess.refs.LoadAndDelete(fid)""", """	ref1, found := sess.refs.Load(fid)""")]),
+ ("c08-no-already-open-test", "C08", [("sfilesys.go", """	if ref.File != nil {
+		return MessageRerror{Ename: "already open"}
+	}
+""", "")]),
+ ("c08-read-mode-inverted", "C08", [("sfilesys.go", """	if (ref.Mode & OEXEC) == OWRITE {
+		return 0, ErrNoread""", """	if (ref.Mode & OEXEC) != OREAD {
+		return 0, ErrNoread""")]),
+ ("c08-write-mode-allows-exec", "C08", [("sfilesys.go", """	if (ref.Mode&OEXEC) != OWRITE && (ref.Mode&OEXEC) != ORDWR {""", """	if (ref.Mode&OEXEC) == OREAD {""")]),
+ ("c08-write-mode-no-mask", "C08", [("sfilesys.go", """	if (ref.Mode&OEXEC) != OWRITE && (ref.Mode&OEXEC) != ORDWR {""", """	if ref.Mode != OWRITE && ref.Mode != ORDWR {""")]),
+ ("c08-create-mode-not-recorded", "C08", [("sfilesys.go", """	ref.File = file
+	ref.Mode = mode
+
+	return ref.Ent.Qid(), uint32(file.IOUnit()), nil""", """	ref.File = file
+
+	return ref.Ent.Qid(), uint32(file.IOUnit()), nil""")]),
+ ("c08-read-no-file-test", "C08", [("sfilesys.go", """	if ref.File == nil {
+		return 0, MessageRerror{Ename: "no file open"} //ErrClosed
+	}
+	if (ref.Mode & OEXEC) == OWRITE {""", """	if (ref.Mode & OEXEC) == OWRITE {""")]),
+ ("c08-delref-work-before-unbind", "C08", [("sfilesys.go", """	ref1, found := sess.refs.LoadAndDelete(fid)
+	if !found {
+		return ErrUnknownfid
+	}""", """	if !sess.fs.RequireAuth(ctx) && remove && fid == 0 {
+		return ErrPerm
+	}
+	ref1, found := sess.refs.LoadAndDelete(fid)
+	if !found {
+		return ErrUnknownfid
+	}""")]),
+ ("c08-walk-reserve-inplace", "C08", [("sfilesys.go", """	if newfid != fid {
+		newref, err = sess.newRef(newfid)""", """	if newfid != fid || len(names) > 8 {
+		newref, err = sess.newRef(newfid)""")]),
+ ("c08-getref-missing-ok", "C08", [("sfilesys.go", """	ref1, found := sess.refs.Load(fid)
+	if !found {
+		return nil, ErrUnknownfid
+	}
+	ref, _ := ref1.(*SFid)
+""", """	ref1, _ := sess.refs.Load(fid)
+	ref, ok := ref1.(*SFid)
+	if !ok {
+		ref = &SFid{}
+	}
+""")]),
 ]
